@@ -25,9 +25,12 @@ for pid in ids:
 m = {
     'version': 1,
     'setup_cmd': 'bin/setup.sh',
-    'hooks': {'guard': 'verif', 'enable': 'go build -tags verif (bin/build_harness.sh). One hook: module/x/mhub2/types/claim_hasher_verif.go (tag verif) records the bytes written into the claim-id hasher (types.LastClaimPreimage); '
-                        'claim_hasher.go (tag !verif) is the identity; claimHash wraps its sha256.New() in newClaimHasher (one changed line). Every other entry point used is exported.',
-              'baseline_off_cmd': 'bin/baseline.sh', 'source_commits': ['3b45937'], 'add_only': False},
+    'hooks': {'guard': 'verif', 'enable': 'go build -tags verif (bin/build_harness.sh). Two hooks. (1) module/x/mhub2/types/claim_hasher_verif.go (tag verif) records the bytes written into the claim-id hasher (types.LastClaimPreimage); '
+                        'claim_hasher.go (tag !verif) is the identity; claimHash wraps its sha256.New() in newClaimHasher (one changed line). '
+                        '(2) minter-connector: tx_committer/commit_hook_verif.go (tag verif) intercepts CommitTx requests (commit_hook.go, tag !verif, never intercepts; CommitTx asks it first: three added lines), and '
+                        'cmd/mhub-minter-connector/relay_verif.go (tag verif) adds an init() that, only when VERIF_RELAY is set, runs the start-up resync and rounds of relayMinterEvents against the configured Minter API, prints cursors and intercepted claims and exits. '
+                        'Every other entry point used is exported.',
+              'baseline_off_cmd': 'bin/baseline.sh', 'source_commits': ['3b45937', '2d18c76'], 'add_only': False},
     'engines': [{'name': 'coq-proof+correspondence', 'path': 'coq/ harness/ bin/check',
                  'serves_properties': [c['property_id'] for c in checks],
                  'kind_free_text': 'Coq 8.16.1 theorems over an executable Gallina model; model extracted to OCaml and co-executed with the Go implementation on generated histories; monitors = extracted predicates evaluated on the implementation'}],
